@@ -283,7 +283,7 @@ Definition side_ok_m (G : list f64) (Q : f64 -> bool) (schema : Z) (sp : list (Z
   exists pops, decode sp ds = Some pops /\
     (forall k, m_get pops k = cnt (fun v => Q v && Z.eqb (key_of schema v) k) G) /\
     (forall e, In e pops -> 0 <= snd e) /\
-    zsum (map snd pops) = cnt Q G.
+    zsum (map snd pops) = cnt Q G /\ wf pops.
 
 Record out_ok (G : list f64) (w : wout) : Prop := mkOutOk {
   o_count : w_count w = zlen G;
@@ -301,9 +301,10 @@ Lemma side_ok_of_map G Q schema m : wf m ->
   side_ok_m G Q schema (fst (make_buckets m)) (snd (make_buckets m)).
 Proof.
   intros Hw H. exists (fill m true 0). split; [apply spans_decode_lemma, wf_sorted_keys, Hw|].
-  split; [intros k; rewrite fill_get by (apply wf_sorted_keys, Hw); apply H|]. split.
+  split; [intros k; rewrite fill_get by (apply wf_sorted_keys, Hw); apply H|]. split; [|split].
   - apply fill_nonneg. apply (map_nonneg (key_of schema) G m Q Hw H).
   - rewrite fill_total. apply (map_total (key_of schema) G m Q Hw H).
+  - apply fill_sorted, wf_sorted_keys, Hw.
 Qed.
 
 Lemma make_buckets_nil_spans m : fst (make_buckets m) = [] -> m = [] /\ snd (make_buckets m) = [].
